@@ -465,6 +465,13 @@ Fixpoint gz_model_results (s : cstate) (g : gin encq) (es : list gzent) : list v
       of_copres r :: gz_model_results s1 g1 t
   end.
 Definition F_S_GZ := bs "gz.results".
+(* frame boundaries are the implementation's business: consecutive data frames are compared as one *)
+Fixpoint merge_frames (l : list val) : list val :=
+  match l with
+  | VB a :: t => match merge_frames t with VB b :: t' => VB (a ++ b) :: t' | t' => VB a :: t' end
+  | x :: t => x :: merge_frames t
+  | [] => []
+  end.
 
 Definition run_stream (v : val) : val :=
   match v with
@@ -490,8 +497,8 @@ Definition run_stream (v : val) : val :=
                 if gz && has_writer i then
                   match s_gz i with
                   | [] => []                       (* cases recorded before the shadow encoder existed *)
-                  | es => firstn 3 (cmp_field F_S_GZ (VL (gz_model_results s0 (GGz encq []) es))
-                                              (VL (map (fun o => match o with VL (r :: _) => r | x => x end) ores)))
+                  | es => firstn 3 (cmp_field F_S_GZ (VL (merge_frames (gz_model_results s0 (GGz encq []) es)))
+                                              (VL (merge_frames (map (fun o => match o with VL (r :: _) => r | x => x end) ores))))
                   end
                 else [] in
               let model_part := gz_part ++ if gz then [] else firstn 12 (cmp_results 0 0 0 mres ores)
